@@ -51,7 +51,7 @@ func (p *propC02) Prepare(seed uint64, tier string) int {
 		p.pairs = append(p.pairs, ftMesg{ft, 49}) // file_creator
 	}
 	p.count = 1200000
-	if tier == "thorough" {
+	if isThorough(tier) {
 		p.count = 25000000
 	}
 	return p.count
